@@ -111,7 +111,8 @@ class ValueOps:
                 n = self.opts.get("fresh_str_cap", 3) if strcap is None else strcap
                 chars = [self.fresh_int(name + ".c", 8) for _ in range(n)]
                 ln = self.fresh_int(name + ".len", 64)
-                self.assume(b_and(int_cmp(">=", ln, 0, 64, True), int_cmp("<=", ln, n, 64, True)), True, "fresh string length")
+                self.assume(b_and(z3.BitVecVal(0, 64) <= ln, ln <= z3.BitVecVal(n, 64)), True, "fresh string length")
+                VAR_BOUNDS[ln.decl().name()] = (0, n)
                 return StrV(chars, ln)
             if c == "float":
                 return FloatV(z3.FP(self.fresh_name(name), z3.Float64()))
